@@ -710,6 +710,9 @@ def finding_signature(reg, n):
     return "odict" in ks or "ntuple" in ks[:-1] or ks[-1] == "odict"
 
 
+_LAST_DV = {}
+
+
 def observe(parser, label, fn, args, track_defaults=True):
     """snapshot, call, snapshot, compare.  `args`: name -> object handed to the call"""
     from ..lib.common import VERIF
@@ -724,7 +727,10 @@ def observe(parser, label, fn, args, track_defaults=True):
     decl = declared_registry(parser)
     decl_atoms = declared_atoms(parser)
     g0 = global_state()
-    dv0 = defaults_by_value(parser) if track_defaults else None
+    # the answer of get_defaults() after the previous observed call is the "before" of this one
+    dv0 = _LAST_DV.get(id(parser)) if track_defaults else None
+    if track_defaults and dv0 is None:
+        dv0 = defaults_by_value(parser)
     try:
         result = fn()
         outcome = "ok"
@@ -740,6 +746,10 @@ def observe(parser, label, fn, args, track_defaults=True):
         if any(now.get(key, None) != val for key, val in decl_atoms.items()):
             decl_changes = [0]
     dv1 = defaults_by_value(parser) if track_defaults else None
+    if track_defaults:
+        _LAST_DV.clear()
+        _LAST_DV[id(parser)] = dv1
+        _LAST_DV["keep"] = parser
     g1 = global_state()
     glob_changes = global_diff(g0, g1)
     if glob_changes:
@@ -1029,6 +1039,102 @@ def correspond_adapt(ctx, batch, n_cases):
         batch.add(model_case("ser" if ser else "adapt", reg, ["v"]), check, {"kind": "adapt", "serialize": ser, "type": repr(t), "value": repr(v)[:400]})
 
 
+# ---------------------------------------------------------------------- exhaustive chains of container kinds
+NT1 = collections.namedtuple("NT1", ["x"])
+
+
+def chain_value(kinds, leaf):
+    """kinds[0](kinds[1](… leaf)) — every container holds exactly one element; None if a set would hold something unhashable"""
+    from jsonargparse import Namespace
+
+    v = leaf
+    for k in reversed(kinds):
+        if k == "list":
+            v = [v]
+        elif k == "tuple":
+            v = (v,)
+        elif k == "ntuple":
+            v = NT1(v)
+        elif k == "set":
+            try:
+                v = {v}
+            except TypeError:
+                return None
+        elif k == "dict":
+            v = {"a": v}
+        elif k == "odict":
+            v = collections.OrderedDict(a=v)
+        elif k == "ns":
+            v = Namespace(a=v)
+    return v
+
+
+def chain_type(kinds, leaf_type):
+    from typing import Dict, List, Set, Tuple
+
+    t = leaf_type
+    for k in reversed(kinds):
+        t = {"list": List[t], "tuple": Tuple[t], "ntuple": Tuple[t], "set": Set[t], "dict": Dict[str, t], "odict": Dict[str, t]}[k]
+    return t
+
+
+def exhaustive_chains(ctx, batch, depth):
+    """all chains of container kinds up to `depth`: recreate_branches over 7 kinds, adapt_typehints (both directions) over 6"""
+    import itertools
+
+    from jsonargparse._namespace import recreate_branches
+    from jsonargparse._typehints import adapt_typehints
+
+    m = usermod()
+    n_rec = n_ad = 0
+    for d in range(1, depth + 1):
+        for kinds in itertools.product(["list", "tuple", "set", "dict", "ns", "odict", "ntuple"], repeat=d):
+            v = chain_value(kinds, 0)
+            if v is None:
+                continue
+            reg = Registry()
+            reg.add("x", v)
+            res = recreate_branches(v)
+            real_shape = shape_of_result(res, reg)
+            k = len(reg.objs) + 1
+            n_rec += 1
+
+            def check(out, real_shape=real_shape, k=k, changed=reg.changed()):
+                if changed:
+                    return "recreate_branches modified its argument"
+                ms = shape_of_model(out["val"], k)
+                return None if ms == real_shape else "sharing shape differs: real %s model %s" % (real_shape, ms)
+
+            batch.add(model_case("recreate", reg, ["x"]), check, {"kind": "recreate", "which": "chain", "value": repr(v)[:300]})
+        for kinds in itertools.product(["list", "tuple", "set", "dict", "odict", "ntuple"], repeat=d):
+            for ser in (False, True):
+                v = chain_value(kinds, m.Color.red if ser else "1")
+                if v is None:
+                    continue
+                t = chain_type(kinds, m.Color if ser else int)
+                reg = Registry()
+                reg.add("v", v)
+                try:
+                    res = adapt_typehints(v, t, serialize=ser)
+                except Exception as ex:  # noqa: BLE001
+                    raise MachineryError("adapt_typehints rejected a chain value: %r %r %r" % (t, v, ex))
+                changed = sorted(reg.changed())
+                same_root = res is v
+                n_ad += 1
+
+                def check(out, changed=changed, same_root=same_root, n=len(reg.objs)):
+                    want = sorted(x for x in out["chg"] if x <= n)
+                    if want != changed:
+                        return "changed containers differ: real %s model %s" % (changed, want)
+                    m_same = isinstance(out["val"], dict) and out["val"]["i"] <= n
+                    if m_same != same_root:
+                        return "identity of the result differs"
+                    return None
+
+                batch.add(model_case("ser" if ser else "adapt", reg, ["v"]), check, {"kind": "adapt", "serialize": ser, "type": repr(t), "value": repr(v)[:300]})
+    ctx.extra["exhaustive_chains"] = {"max_depth": depth, "recreate_cases": n_rec, "adapt_cases": n_ad}
+
+
 # ---------------------------------------------------------------------- c. parser-level operations
 def check_writes(ob, names):
     """model's caller-side writes must cover the real changes; by the theorems they are inside `shared`"""
@@ -1229,6 +1335,7 @@ def run_scenario(ctx, batch, sc, origin, only_op=None):
             argv2 = ["--cfg", cpath]
             ob = observe(parser, "parse_args:cfgfile:" + tag, lambda argv2=argv2: parser.parse_args(argv2), {"args": argv2})
             J(ob, "parse_args")
+            J(observe(parser, "parse_path:" + tag, lambda cpath=cpath: parser.parse_path(cpath), {}), "parse_args")
             old_argv = sys.argv
             sys.argv = ["app"] + argv
             try:
@@ -1453,11 +1560,15 @@ def run(ctx: Ctx):
 
     batch = ModelBatch()
     boost = ctx.search_boost
+    phases = {"lean_build": round(ctx.elapsed(), 1)}
+    ctx.extra["phase_s"] = phases
 
     # ---- (2a/2b) model correspondence on raw values
     correspond_recreate(ctx, batch, ctx.budget(400, 4000) * boost)
     correspond_adapt(ctx, batch, ctx.budget(400, 4000) * boost)
+    exhaustive_chains(ctx, batch, ctx.budget(3, 4))
 
+    phases["value_correspondence"] = round(ctx.elapsed(), 1)
     # ---- corpus first
     n_viol = 0
     for c in corpus_mod.load(ctx.prop):
@@ -1466,10 +1577,11 @@ def run(ctx: Ctx):
     # ---- bracket cases
     ctx.extra["bracket_cases"] = bracket_cases(ctx)
 
+    phases["corpus_and_brackets"] = round(ctx.elapsed(), 1)
     # ---- generated scenarios
     n_sc = ctx.budget(100, 900) * (2 if boost > 1 else 1)
     for i in range(n_sc):
-        if not ctx.thorough and ctx.elapsed() > 65:
+        if not ctx.thorough and ctx.elapsed() > 60:
             ctx.extra["stopped_early_after_scenarios"] = i
             break
         sc = gen_scenario(ctx.rng, odict=(i % 5 == 4))
@@ -1478,8 +1590,10 @@ def run(ctx: Ctx):
         n_viol += run_scenario(ctx, batch, sc, "generated")
     ctx.extra["scenarios"] = n_sc
 
+    phases["scenarios"] = round(ctx.elapsed(), 1)
     # ---- evaluate the model batch
     bad = batch.run(ctx)
+    phases["model_batch"] = round(ctx.elapsed(), 1)
     ctx.extra["model_cases"] = len(batch.lines)
     ctx.extra["correspondence_disagreements"] = len(bad)
     for b in bad[:3]:
